@@ -15,6 +15,10 @@ def replay(obj):
 def run(rep, args):
     rep.level = 'other'
     pr = pyprops.prove(rep, PID, args)
+    from props import wf_scope
+    if not wf_scope.check_wf(rep, True, 40 if rep.tier == 'quick' else 400):
+        pr['demoted'].append(dict(key='(all proofs)', reason='the typed-field schema / class invariants assumed by the proofs do not hold on the bounded scope',
+                                  was_proved=True, changed=True))
     n = 120 if rep.tier == 'quick' else 1500
     if pr['demoted'] or pr['regressions']:
         n *= 4
